@@ -14,7 +14,7 @@ MACHINE_RUN = "Machine.run has an assumed contract (its body subtracts and re-ad
 ALG = "user scheduling algorithms are an abstract callee: may call the public Cluster API, returns an arbitrary task->machine mapping (Scheduling.run assumed contract); they do not write private fields of the actors or spawn processes"
 NX = "networkx (assumed): predecessors / successors / pred / nodes as an edge relation; topological_sort lists every node once with every edge forward; relabel_nodes is the image graph"
 NP = "numpy.random (assumed): default_rng(seed) is a pure function of seed, default_rng() is not; normal/poisson return arrays of the requested length (all equal to the mean when the spread is 0); a[a > x] keeps exactly the elements > x"
-PD = "pandas (assumed): DataFrame(list of dicts) has one row per element; concat adds row counts; the outer join of one-row frames has one row"
+PD = "pandas (assumed): DataFrame(list of dicts) has one row per element; DataFrame(dict of dicts) has one column per key; .T swaps rows and columns; len(frame) is its row count; frame[col] = list needs one value per row and keeps the rows; infer_objects keeps rows and columns; concat adds row counts; the outer join of one-row frames has one row"
 STATIC = "static (SHADOW) planning cannot be imported here; plan-following and greedy algorithms are verified against hand-stated plan preconditions"
 
 PROPERTY_NOTES = {
@@ -26,8 +26,8 @@ PROPERTY_NOTES = {
     'C03': dict(assumptions=[NX, S['S2'], "every in-tree algorithm iterates its own loops atomically (S1)"],
                 not_covered=["for GreedySchedulingFromPlan the precedence clause is in terms of task ids (unique ids assumed)",
                              "the same-machine clause 'start >= recorded finish of the predecessor' (needs intra-step order, S7)"]),
-    'C04': dict(assumptions=[ENV_RUN, ALG, MACHINE_RUN, S['S1'], S['S3']],
-                not_covered=["termination (C05)", "the transposition and decoration of the task table in Simulation._generate_final_task_data (pandas: assumed contract); finished_task_time_data itself is proved to have one column per task of the finished map (unique ids: C14)"]),
+    'C04': dict(assumptions=[ENV_RUN, ALG, MACHINE_RUN, S['S1'], S['S3'], PD, "task ids are unique (C14) - assumed precondition of the task-table functions"],
+                not_covered=["termination (C05)"]),
     'C06': dict(assumptions=[S['S2'], "float arithmetic exact", "the delay model's caller-side contract (result >= runtime) is proved under C15"],
                 not_covered=["monotonicity is the monotonicity of max(1, max(floor(w/s), floor(d/b))), stated in DESIGN.md and not a separate obligation"]),
     'C07': dict(assumptions=[S['S1'], S['S2'], "observation durations and (rounded) data rates are whole numbers (entity typing invariant, checked at every write)"],
